@@ -159,6 +159,42 @@ func (c ColumnType) normalizeCommas() ColumnType {
 	return ColumnType(strings.Join(elems, sep))
 }
 
+// splitTypeParams splits comma-separated type parameters on the top level,
+// i.e. ignoring commas inside of nested parentheses and quoted strings.
+//
+// E.g. "String, Map(String, Int8)" is ["String", "Map(String, Int8)"].
+func splitTypeParams(s string) []string {
+	if strings.TrimSpace(s) == "" {
+		return nil
+	}
+	var (
+		result []string
+		depth  int
+		quoted bool
+		start  int
+	)
+	for i := 0; i < len(s); i++ {
+		switch c := s[i]; {
+		case quoted:
+			if c == '\\' {
+				i++ // skip escaped character
+			} else if c == '\'' {
+				quoted = false
+			}
+		case c == '\'':
+			quoted = true
+		case c == '(':
+			depth++
+		case c == ')':
+			depth--
+		case c == ',' && depth == 0:
+			result = append(result, strings.TrimSpace(s[start:i]))
+			start = i + 1
+		}
+	}
+	return append(result, strings.TrimSpace(s[start:]))
+}
+
 // With returns ColumnType(p1, p2, ...) from ColumnType.
 func (c ColumnType) With(params ...string) ColumnType {
 	if len(params) == 0 {
